@@ -909,6 +909,8 @@ def main(tier):
     c15.rule_E(ck, {k: v for k, v in units.items() if k == 'rt_builtin'})     # cleared containers carry no state (shared with C15)
     import c07
     c07.rule_zero(ck, {k: v for k, v in units.items() if k == 'rt_builtin'}, floor=8)
+    import rmerge
+    rmerge.rule_scratch_fits(ck, units)     # the scratch of the row-merge SpGEMM holds every sub-buffer handed to the row kernels (shared with C03 / C08)
     ck.assumptions += ['index arithmetic in range for all inputs and leaks on exception paths are not decided',
                        'arrays written only at the diagonal entry rely on the documented precondition of a structurally present diagonal']
     return ck.finish()
